@@ -124,11 +124,11 @@ add('C13', 'runtime monitoring: wsgiref.validate around every exchange, a record
     'DESIGN.md section 3, C13')
 add('C14', 'runtime monitoring with fault enumeration: byte comparison against an independent path mapping over an enumerated '
            'segment space, an open() audit hook, and the k-th-filesystem-call x errno fault sweep',
-    'A generated tree with secrets beside and above the roots is served under six configurations (1-2 search paths, two overlapping '
-    'applications, three mount prefixes, three slash modes); every sequence of <=3 (thorough <=4) segments from a 19-word vocabulary '
-    '(names, ".", "..", "", "...", pieces of the absolute root and secret paths) is requested as raw PATH_INFO (52 000 requests per '
-    'quick run) and judged; every served file is re-requested conditionally; for sampled requests each filesystem call made before the '
-    'callable returns fails in turn with ENOENT/EACCES/EIO/EISDIR.',
+    'A generated tree with secrets beside and above the roots is served under eleven configurations (1-2 search paths, two overlapping '
+    'applications, mount prefixes, three slash modes, five spellings of the search directory); every sequence of <=3 (thorough <=4) segments from a 21-word vocabulary '
+    '(names, ".", "..", "", "...", pieces of the absolute root and secret paths) is requested as raw PATH_INFO (95 000 evaluations per '
+    'quick run) and judged; every served file (incl. fresh, oddly named and normalisation-sensitive ones) is re-requested conditionally, directories and missing names too; for sampled requests each filesystem call made before the '
+    'callable returns fails in turn with ENOENT/EACCES/EIO/EISDIR, as does every call about one file, each followed by a fault-free request.',
     'DESIGN.md section 3, C14', category='fault_enumeration')
 
 
